@@ -1526,6 +1526,207 @@ def check_pipeline(name, params, combos, default):
 
 
 # ---------------------------------------------------------------------------------------------
+# one Fourier object reused across precisions, tensor shapes and directions, per configuration
+
+def _reuse_makers():
+    """name -> (make(params) -> (object, grid of forward inputs, grid of backward inputs), relevant switches)"""
+    import hcipy as h
+    R = {}
+
+    def pupil(p, rect=False):
+        return h.make_pupil_grid([p['n'], p['n'] + p['odd']] if rect else p['n'])
+
+    def mft2d(p):
+        pg = pupil(p, rect=True); fg = h.make_focal_grid(p['q'], p['nairy'])
+        ft = h.MatrixFourierTransform(pg, fg)
+        return ft, pg, fg
+    R['mft2d'] = (mft2d, ('mft_pre', 'mft_alloc'))
+
+    def mft1d(p):
+        pg = h.make_uniform_grid([p['n'] + 3], [1.0]); fg = h.make_uniform_grid([2 * p['nairy'] + 1], [8.0 * p['q']])
+        ft = h.MatrixFourierTransform(pg, fg)
+        return ft, pg, fg
+    R['mft1d'] = (mft1d, ('mft_pre', 'mft_alloc'))
+
+    def fft(p):
+        pg = pupil(p, rect=True)
+        ft = h.FastFourierTransform(pg, p['q'], [1, 0.5, 0.75][p['nairy'] % 3], shift=[0.25 * p['odd'], 0.5])
+        return ft, pg, ft.output_grid
+    R['fft'] = (fft, ('emulate',))
+
+    def fft1d(p):
+        pg = h.make_uniform_grid([p['n'] + 3], [1.0])
+        ft = h.FastFourierTransform(pg, p['q'], 1)
+        return ft, pg, ft.output_grid
+    R['fft1d'] = (fft1d, ('emulate',))
+
+    def filt(p):
+        pg = pupil(p, rect=True)
+        ff = h.FourierFilter(pg, lambda g: h.Field(np.exp(-(g.as_('polar').r / 20.0)**2) * np.exp(0.05j * g.x), g), p['q'])
+        return ff, pg, pg
+    R['filter'] = (filt, ('emulate',))
+
+    def nft(p):
+        pg = h.make_pupil_grid(min(p['n'], 10)); fg = h.make_focal_grid(2, 2)
+        ft = h.NaiveFourierTransform(pg, fg)
+        return ft, pg, fg
+    R['nft'] = (nft, ('nft_pre',))
+
+    def auto(p):
+        pg = pupil(p)
+        ft = h.make_fourier_transform(pg, q=p['q'], fov=[1, 0.5, 0.3][p['nairy'] % 3])
+        return ft, pg, ft.output_grid
+    R['auto'] = (auto, ('emulate', 'mft_pre', 'mft_alloc'))
+
+    def zoom(p):
+        pg = pupil(p); fg = h.make_focal_grid(p['q'], p['nairy'])
+        ft = h.ZoomFastFourierTransform(pg, fg)
+        return ft, pg, fg
+    R['zoom'] = (zoom, ())
+    return R
+
+
+REUSE_DTYPES = ['complex128', 'complex64', 'float64', 'float32']
+REUSE_TENSORS = [[], [2], [2, 2], [3]]
+
+
+def gen_script(rng, n_calls, complex_only=False):
+    """[direction, dtype, tensor shape, data seed] per call; precision and tensor shape change on purpose"""
+    script = []
+    for k in range(n_calls):
+        d = 'f' if rng.random() < 0.6 else 'b'
+        dt = REUSE_DTYPES[int(rng.integers(0, 2 if (complex_only or d == 'b') else 4))]
+        if k and rng.random() < 0.5:          # flip the precision with respect to the previous call
+            single = script[-1][1] in ('complex64', 'float32')
+            dt = ('complex128' if single else 'complex64')
+        t = REUSE_TENSORS[int(rng.choice([0, 0, 0, 1, 2, 3]))]
+        script.append([d, dt, t, int(rng.integers(0, 1000))])
+    return script
+
+
+DIRECTED_SCRIPTS = [
+    [['f', 'complex64', [], 1], ['f', 'complex128', [], 2], ['b', 'complex128', [], 3], ['b', 'complex64', [], 4], ['f', 'complex128', [], 5]],
+    [['f', 'complex128', [], 1], ['f', 'complex64', [], 2], ['f', 'complex64', [2, 2], 3], ['f', 'complex128', [2], 4], ['b', 'complex64', [2], 5],
+     ['b', 'complex128', [], 6], ['f', 'float32', [], 7], ['f', 'float64', [3], 8], ['f', 'complex128', [], 1]],
+]
+
+
+def _reuse_field(grid, call, complex_only):
+    import hcipy as h
+    d, dt, tensor, seed = call
+    if complex_only and not dt.startswith('complex'):
+        dt = 'complex128' if dt == 'float64' else 'complex64'
+    rs = np.random.RandomState(seed)
+    shape = list(tensor) + [grid.size]
+    a = rs.randint(-8, 9, shape).astype('float64')
+    if dt.startswith('complex'):
+        a = a + 1j * rs.randint(-8, 9, shape)
+    return h.Field(a.astype(dt), grid)
+
+
+def run_reuse(name, params, script, combo, fresh):
+    """the script on ONE object (fresh=False) or on a new object per call (fresh=True)"""
+    make, _ = _reuse_makers()[name]
+    complex_only = name == 'filter'
+    out = []
+    with config(**combo), warnings.catch_warnings():
+        warnings.simplefilter('error')
+        warnings.filterwarnings('ignore', category=SyntaxWarning)
+        warnings.filterwarnings('ignore', category=DeprecationWarning)
+        obj = None
+        for call in script:
+            if obj is None or fresh:
+                obj, gin, gout = make(params)
+            f = _reuse_field(gin if call[0] == 'f' else gout, call, complex_only)
+            keep = np.array(np.asarray(f))
+            res = obj.forward(f) if call[0] == 'f' else obj.backward(f)
+            if not np.array_equal(keep, np.asarray(f)):
+                out.append(('input-modified', None))
+                continue
+            out.append((np.array(np.asarray(res)), str(np.asarray(res).dtype)))
+    return out
+
+
+def compare_reuse(ref, out, script):
+    for i, (a, b) in enumerate(zip(ref, out)):
+        if a[1] is None or b[1] is None:
+            if a[0] is not b[0] and not (a[1] is None and b[1] is None):
+                return i, 'the input field was modified'
+            continue
+        if a[1] != b[1]:
+            return i, 'result dtype %s instead of %s' % (b[1], a[1])
+        if a[0].shape != b[0].shape:
+            return i, 'result shape %s instead of %s' % (b[0].shape, a[0].shape)
+        single = script[i][1] in ('complex64', 'float32')
+        scale = max(float(np.max(np.abs(a[0]))), 1e-300)
+        err = float(np.max(np.abs(a[0] - b[0]))) / scale
+        if not err <= (5e-4 if single else PIPE_TOL):
+            return i, 'differs by %.3g relative' % err
+    return None
+
+
+def reuse_combos(relevant, thorough):
+    seen, res = set(), []
+    methods = METHODS if thorough else [['scipy'], ['numpy'], METHODS[3]]
+    for new in (False, True):
+        for meth in methods:
+            vals = [(True, False)] * len(relevant)
+            for choice in itertools.product(*vals):
+                combo = {'new_style': new, 'method': meth}
+                combo.update(dict(zip(relevant, choice)))
+                key = repr(sorted(combo.items()))
+                if key not in seen:
+                    seen.add(key)
+                    res.append(combo)
+    return res
+
+
+def check_reuse(name, params, script, combos, default):
+    """list of (nflips, key suffix, combo, what)"""
+    def attempt(combo, fresh):
+        try:
+            return run_reuse(name, params, script, combo, fresh), None
+        except MachineryError:
+            raise
+        except Warning as w:
+            return None, 'warns %s: %s' % (type(w).__name__, str(w)[:100])
+        except Exception as e:  # noqa
+            return None, 'raises %s: %s' % (type(e).__name__, str(e)[:100])
+    ref_reuse, err = attempt({}, False)
+    ref_fresh, err2 = attempt({}, True)
+    if ref_fresh is None:
+        raise MachineryError('reuse scenario %s cannot be evaluated with fresh objects under the default configuration: %s' % (name, err2))
+    bad = []
+    def flips(combo):
+        return sorted(k for k in combo if combo[k] != default.get(k))
+    if ref_reuse is None:
+        bad.append((0, 'default vs-fresh', {}, 'one reused object %s, fresh objects do not' % err))
+    else:
+        d = compare_reuse(ref_fresh, ref_reuse, script)
+        if d is not None:
+            bad.append((0, 'default vs-fresh', {}, 'call %d %r on the reused object: %s from the same call on a fresh object' % (d[0], script[d[0]], d[1])))
+    for combo in combos:
+        out, e1 = attempt(combo, False)
+        if out is None:
+            bad.append((len(flips(combo)), '+'.join(flips(combo)) + ' raises', combo, 'one reused object %s' % e1))
+            continue
+        fr, e2 = attempt(combo, True)
+        if fr is None:
+            bad.append((len(flips(combo)), '+'.join(flips(combo)) + ' raises', combo, 'fresh objects: %s' % e2))
+            continue
+        d = compare_reuse(fr, out, script)
+        if d is not None:
+            bad.append((len(flips(combo)), '+'.join(flips(combo)) + ' vs-fresh', combo,
+                        'call %d %r on the reused object: %s from the same call on a fresh object' % (d[0], script[d[0]], d[1])))
+        d = compare_reuse(ref_fresh, out, script)
+        if d is not None:
+            bad.append((len(flips(combo)), '+'.join(flips(combo)) + ' vs-default', combo,
+                        'call %d %r: %s from the default configuration' % (d[0], script[d[0]], d[1])))
+    bad.sort(key=lambda t: t[0])
+    return bad
+
+
+# ---------------------------------------------------------------------------------------------
 # the property evaluated on the observations (independent of the Lean model)
 
 def stmt_sig(s):
@@ -1782,7 +1983,7 @@ def run(ctx):
                 'every elementwise node with a Field operand must return a Field on that grid; copy/pickle must return an independent equal '
                 'Field. Correspondence: tag (Field+grid / ndarray / scalar), shape, dtype class and values of every observation of each '
                 'style against the matching model route. Pipelines: 20 library computations (incl. hcipy._math.fft called directly on four dtypes) under all 64 configuration combinations '
-                'against the default. Non-trivial = at least three statements; distinct by the sequence of statement signatures.')
+                'against the default; 8 kinds of Fourier object (MFT 2-D/1-D, FFT 2-D/1-D, FourierFilter, NFT, make_fourier_transform, ZoomFFT) each REUSED over scripted and random call sequences (precision changes, tensor-shape changes, forward/backward) under every relevant switch x field style x backend, every call compared with a fresh object under the same configuration and with the default configuration. Non-trivial = at least three statements; distinct by the sequence of statement signatures.')
     ctx.assumptions += ['plain ndarray arithmetic is the reference for the values',
                         'dyadic inputs: results are exact or within 1e-12 of the exact value',
                         'mkl_fft and pyfftw are not installed: those backend names exercise the fall-through only']
@@ -1842,9 +2043,42 @@ def _run(ctx):
                               'pipeline %s: %s when %s (%d of %d combinations disagree with the default configuration)' % (
                                   name, what, ', '.join('%s=%r' % (k, combo[k]) for k in flipped), len(bad), len(use)),
                               {'pipeline': name, 'params': params, 'combo': combo})
+    run_reuse_sweep(ctx, default)
+
+
+def run_reuse_sweep(ctx, default):
+    rng = ctx.rng
+    thorough = ctx.tier == 'thorough'
+    makers = _reuse_makers()
+    for name in sorted(makers):
+        relevant = makers[name][1]
+        combos = reuse_combos(relevant, thorough)
+        scripts = [list(sc) for sc in DIRECTED_SCRIPTS[:(2 if thorough or name in ('mft2d', 'fft', 'filter') else 1)]]
+        for _ in range(ctx.scale(1 if name in ('nft', 'zoom', 'auto', 'mft1d', 'fft1d') else 2, 8)):
+            scripts.append(gen_script(rng, int(rng.integers(5, 11)), complex_only=(name == 'filter')))
+        for script in scripts:
+            params = {'n': int(rng.choice([6, 8, 9, 12, 16])), 'q': int(rng.integers(1, 4)), 'nairy': int(rng.integers(2, 6)), 'odd': int(rng.integers(0, 2))}
+            bad = check_reuse(name, params, script, combos, default)
+            ctx.count('reuse:' + name)
+            ctx.count('reuse-calls', len(script) * (2 * len(combos) + 2))
+            ctx.count('reuse-precision-changes', sum(1 for a, b in zip(script, script[1:]) if (a[1] in ('complex64', 'float32')) != (b[1] in ('complex64', 'float32'))))
+            ctx.count('reuse-tensor-changes', sum(1 for a, b in zip(script, script[1:]) if a[2] != b[2]))
+            ctx.case(None, nontrivial_key=('reuse', name, tuple(sorted(params.items())), len(script)))
+            if bad:
+                nf, suffix, combo, what = bad[0]
+                ctx.violation('reuse %s %s' % (name, suffix),
+                              'one %s object reused across calls: %s; configuration %s (%d findings over %d configurations)' % (
+                                  name, what, ', '.join('%s=%r' % kv for kv in sorted(combo.items())) or 'default', len(bad), len(combos)),
+                              {'reuse': name, 'params': params, 'script': script, 'combo': combo})
 
 
 def replay(ctx, case):
+    if 'reuse' in case:
+        default = {k: v for k, v in snapshot_config().items()}
+        bad = check_reuse(case['reuse'], case['params'], case['script'], [case['combo']] if case['combo'] else [], default)
+        for _, suffix, combo, what in bad:
+            print('  fails:', suffix, '-', what)
+        return not bad
     if 'pipeline' in case:
         default = {k: v for k, v in snapshot_config().items()}
         bad = check_pipeline(case['pipeline'], case['params'], [case['combo']], default)
